@@ -190,7 +190,14 @@ def link_body_shape_cases():
             ["symlink", H("root/fdot"), H("file/.")], ["symlink", H("root/ds"), H("dir/")], ["symlink", H("root/ads"), H("/dir//")],
             ["symlink", H("root/dsl"), H("dir//sub")], ["symlink", H("root/ddot"), H("dir/./sub/..")], ["symlink", H("root/to_fs"), H("fs")],
             ["symlink", H("root/to_ds_s"), H("ds/")], ["symlink", H("root/dangs"), H("nonexistent/")], ["symlink", H("root/lead"), H("//dir/f")],
-            ["symlink", H("root/dir/up_s"), H("../file/")], ["symlink", H("root/dir/up_ds"), H("../dir/sub/")]]
+            ["symlink", H("root/dir/up_s"), H("../file/")], ["symlink", H("root/dir/up_ds"), H("../dir/sub/")],
+            # bodies WITHOUT any real component: nothing is queued for them, so whatever bookkeeping a resolver keeps per link
+            # (the emulated backend's symlink stack) has to cope with an entry that is finished the moment it is made
+            ["symlink", H("root/rootlink"), H("/")], ["symlink", H("root/dotlink"), H(".")], ["symlink", H("root/dotsl"), H("./")],
+            ["symlink", H("root/slashes"), H("//")], ["symlink", H("root/dir/here"), H(".")], ["symlink", H("root/dir/rootdot"), H("/.")],
+            ["symlink", H("root/dir/dotdot"), H("./.")], ["symlink", H("root/to_rootlink"), H("rootlink")]]
     paths = ["fs", "afs", "fss", "fdot", "ds", "ads", "dsl", "ddot", "to_fs", "to_ds_s", "dangs", "lead", "dir/up_s", "dir/up_ds",
-             "fs/", "ds/", "ds/f", "ads/sub", "to_ds_s/f", "fs/x", "dir/up_ds/..", "ds/../file", "fs/..", "dir/up_s/.."]
+             "fs/", "ds/", "ds/f", "ads/sub", "to_ds_s/f", "fs/x", "dir/up_ds/..", "ds/../file", "fs/..", "dir/up_s/..",
+             "rootlink", "rootlink/dir", "rootlink/dir/sub", "dotlink", "dotlink/dir", "dotsl/dir/sub", "slashes", "slashes/dir",
+             "dir/here", "dir/here/sub", "dir/rootdot/dir", "dir/dotdot/sub", "to_rootlink/dir", "rootlink/dotlink/dir/here"]
     return [(tree, p_) for p_ in paths]
